@@ -48,62 +48,108 @@ def rules(fx, rep):
     for p in fx.fns:
         if inline(p):
             rep.fn(p)
-    some_paths = []
-    none_paths = []
-    other = []
-    for pth, ret, outs in res:
-        if isinstance(ret, exp.Opt) and ret.tag == 'some':
-            some_paths.append((pth, ret))
-        elif isinstance(ret, exp.Opt) and ret.tag == 'none':
-            none_paths.append((pth, ret))
-        else:
-            other.append((pth, ret))
-    rep.check(not other, 'GUARD', 'final_exponentiation:result-shape',
-              'every path returns an explicit Some(..) or None',
-              'a path returns something that is neither a definite Some nor None: %r' % (other[:1],), where)
-    # GUARD: the only fork is the Option returned by inverse(); Some exactly when the inversion succeeded
+    # GUARD + EXP, decided by value in the two worlds f = 0 and f != 0.  Every branch of the function must be a test whose
+    # operands are powers of the input (the Option returned by an inversion, an is_zero test, an equality): in the world
+    # f = 0 each such test has a definite outcome, so the paths feasible there are known and must return None; in the world
+    # f != 0 an inversion succeeds, is_zero fails, and an equality f^i == f^j that was taken says ord(f) | (i - j), so the
+    # path must return Some(f^e') with e' = 3(q^12-1)/r modulo gcd(q^12-1, i - j, ...) -- i.e. a fast path for elements of a
+    # subfield may return any power that agrees with the specification on that subfield.
     import tt
-    ok = True
-    detail = []
-    for kind, paths, want in (('Some', some_paths, True), ('None', none_paths, False)):
-        for pth, ret in paths:
-            lits = [(k_, t_) for k_, t_, _l in tt.path_literals(pth)]
-            if not (len(lits) == 1 and lits[0][0] and lits[0][0][0] == 'inverse' and lits[0][1] == want):
-                ok = False
-                detail.append('%s returned on path %r' % (kind, lits))
-    rep.check(ok and len(some_paths) == 1 and len(none_paths) == 1, 'GUARD', 'final_exponentiation:none-iff-inverse-none',
-              'exactly two paths: inverse()==None -> None, inverse()==Some -> Some',
-              'failure is not reported exactly when the inversion fails: %s (some=%d none=%d)' % ('; '.join(detail), len(some_paths), len(none_paths)), where)
-    # the inverted value must be the input itself (so that "fails" means f == 0)
-    inv_events = [e for pth, _ in some_paths for e in pth.events]
-    for pth, ret in some_paths:
-        v = ret.payload
-        if not isinstance(v, exp.Lin):
-            rep.fail('EXP', 'final_exponentiation:exponent', 'result is not a power of the input (TOP): a non-multiplicative or data-dependent operation touches it', where)
-            continue
-        extra = v.atoms() - {'f'}
-        rep.check(not extra, 'EXP', 'final_exponentiation:pure-power',
-                  'result is a pure power of the input', 'result also depends on %s' % sorted(extra), where)
-        e = v.coeff('f') % N
-        rep.check(e == target, 'EXP', 'final_exponentiation:exponent',
-                  'exponent == 3(q^12-1)/r (mod q^12-1), derived over %d call sites' % I.call_sites,
-                  'exponent of the result is %#x (mod q^12-1), expected 3(q^12-1)/r = %#x' % (e, target), where)
-        # corollaries, on the derived exponent
-        rep.check(e * M.R_ORDER % N == 0, 'EXP', 'corollary:maps-into-r-th-roots', 'e*r == 0 mod q^12-1', 'e*r != 0 mod q^12-1', where)
-        for d in (1, 2, 3, 4, 6):
-            rep.check(e % (q**d - 1) == 0, 'EXP', 'corollary:subfield-Fq%d-to-1' % d,
-                      '(q^%d-1) | e' % d, '(q^%d-1) does not divide e: non-zero elements of F_q^%d are not sent to 1' % (d, d), where)
-    # what does inverse() get applied to?  It must be the input itself (so that "fails" means f == 0), on every path
+    from math import gcd
+
+    def power(v):
+        if isinstance(v, exp.Lin) and v.atoms() <= {'f'}:
+            return v.coeff('f')
+        return None
+
+    def zero_at_0(k):
+        # f^k at f = 0: 0 for k > 0, 1 for k = 0; k < 0 only arises behind a successful inversion (infeasible at f = 0)
+        return None if k < 0 else k > 0
+    n_world = [0, 0]
     n_inv = 0
+    general = []
     for pth, ret, outs in res:
+        feas0, feas1, mod, undec = True, True, N, None
+        for lab, taken in pth.labels:
+            x, neg = tt.strip_not(lab)
+            truth = (taken != 0) != neg
+            kind = x[0] if isinstance(x, tuple) and x else None
+            if kind in ('inverse', 'is_zero'):
+                if kind == 'inverse':
+                    ks = set(power(e[1]) for e in pth.events if e[0] == 'inverse-of' and e[2] == x[1])
+                    k = ks.pop() if len(ks) == 1 else None
+                    nonzero_taken = truth          # Some  <=>  the inverted value is non-zero
+                else:
+                    k = power(x[1])
+                    nonzero_taken = not truth
+                if k is None:
+                    undec = lab
+                    break
+                z0 = zero_at_0(k)
+                if z0 is None or nonzero_taken == z0:
+                    feas0 = False
+                if not nonzero_taken:
+                    feas1 = False
+            elif kind in ('eq', 'ne') and len(x) >= 3:
+                i, j = power(x[1]), power(x[2])
+                if i is None or j is None:
+                    undec = lab
+                    break
+                equal = truth if kind == 'eq' else not truth
+                zi, zj = zero_at_0(i), zero_at_0(j)
+                if zi is None or zj is None or equal != (zi == zj):
+                    feas0 = False
+                if equal:
+                    mod = gcd(mod, abs(i - j))
+                elif (i - j) % N == 0:
+                    feas1 = False
+            else:
+                undec = lab
+                break
+        if undec is not None:
+            rep.fail('GUARD', 'final_exponentiation:branches-on-powers-of-input', 'a branch tests %r, which is not decided by the input being zero or by a relation between powers of the input' % (undec,), where, construct=FE)
+            continue
         invs = [e for e in pth.events if e[0] == 'inverse-of']
         n_inv += len(invs)
-        for e in invs:
-            good = isinstance(e[1], exp.Lin) and e[1] == exp.Lin.atom('f')
-            rep.check(good, 'GUARD', 'final_exponentiation:inverse-of-input',
-                      'inverse() is applied to the input itself', 'inverse() is applied to %r, not to the input' % (e[1],), e[2])
-        if len(invs) != 1:
-            rep.fail('GUARD', 'final_exponentiation:inverse-of-input', '%d inversions on a path (expected exactly one, of the input)' % len(invs), where)
+        is_none = isinstance(ret, exp.Opt) and ret.tag == 'none'
+        is_some = isinstance(ret, exp.Opt) and ret.tag == 'some'
+        if feas0:
+            n_world[0] += 1
+            rep.check(is_none, 'GUARD', 'final_exponentiation:none-for-zero', 'the path taken by f = 0 returns None',
+                      'failure is not reported for f = 0: the path %r is taken by f = 0 and returns %r' % ([(k_, t_) for k_, t_, _l in tt.path_literals(pth)], ret), where, construct=FE)
+        if feas1:
+            n_world[1] += 1
+            if not is_some:
+                rep.fail('GUARD', 'final_exponentiation:some-for-non-zero', 'failure is reported for a non-zero input: the path %r is feasible for f != 0 and returns %r' % ([(k_, t_) for k_, t_, _l in tt.path_literals(pth)], ret), where, construct=FE)
+                continue
+            v = ret.payload
+            if not isinstance(v, exp.Lin):
+                rep.fail('EXP', 'final_exponentiation:exponent', 'result is not a power of the input (TOP): a non-multiplicative or data-dependent operation touches it', where)
+                continue
+            extra = v.atoms() - {'f'}
+            rep.check(not extra, 'EXP', 'final_exponentiation:pure-power',
+                      'result is a pure power of the input', 'result also depends on %s' % sorted(extra), where)
+            e = v.coeff('f') % N
+            if mod == N:
+                general.append(e)
+                rep.check(e == target, 'EXP', 'final_exponentiation:exponent',
+                          'exponent == 3(q^12-1)/r (mod q^12-1), derived over %d call sites' % I.call_sites,
+                          'exponent of the result is %#x (mod q^12-1), expected 3(q^12-1)/r = %#x' % (e, target), where)
+                # corollaries, on the derived exponent
+                rep.check(e * M.R_ORDER % N == 0, 'EXP', 'corollary:maps-into-r-th-roots', 'e*r == 0 mod q^12-1', 'e*r != 0 mod q^12-1', where)
+                for d in (1, 2, 3, 4, 6):
+                    rep.check(e % (q**d - 1) == 0, 'EXP', 'corollary:subfield-Fq%d-to-1' % d,
+                              '(q^%d-1) | e' % d, '(q^%d-1) does not divide e: non-zero elements of F_q^%d are not sent to 1' % (d, d), where)
+            else:
+                rep.check((e - target) % mod == 0, 'EXP', 'final_exponentiation:exponent-on-special-path',
+                          'on a path that assumed f^m = 1 the exponent is 3(q^12-1)/r modulo m',
+                          'on the path assuming f^%#x = 1 the exponent of the result is %#x, which differs from 3(q^12-1)/r modulo that order' % (mod, e), where, construct=FE)
+        if not feas0 and not feas1 and not (isinstance(ret, tuple) and ret and ret[0] == 'diverges'):
+            pass        # infeasible path
+        if (feas0 or feas1) and not (is_none or is_some):
+            rep.fail('GUARD', 'final_exponentiation:result-shape', 'a feasible path returns something that is neither a definite Some nor None: %r' % (ret,), where, construct=FE)
+    rep.check(n_world[0] >= 1 and n_world[1] >= 1 and len(general) >= 1, 'GUARD', 'final_exponentiation:worlds-covered',
+              'some path is taken by f = 0, some general path by f != 0', 'paths feasible for f = 0: %d, for f != 0: %d, general: %d' % (n_world[0], n_world[1], len(general)), where)
     rep.floor('GUARD', 'inverse-call', n_inv, 1)
 
 
